@@ -162,7 +162,8 @@ def gen_history(rng, cls):
             ops.append({"op": "label", "bad": bool(bad), "idx": int(rng.integers(0, 20))})
         elif r < 0.80:
             ks = [str(k) for k in rng.choice(keys, size=int(rng.integers(0, len(keys) + 1)), replace=False)]
-            ops.append({"op": "reset", "keys": ks, "single": bool(rng.random() < 0.4 and len(ks) == 1), "kw": bool(rng.random() < 0.3)})
+            form = str(rng.choice(["pos", "pos", "kw", "mixed", "unknown-pos", "unknown-kw", "unknown-mixed"]))
+            ops.append({"op": "reset", "keys": ks, "single": bool(rng.random() < 0.4 and len(ks) == 1), "kw": form == "kw", "form": form})
         elif r < 0.92:
             ops.append({"op": str(rng.choice(["copy", "deepcopy"])), "then": str(rng.choice(["mutate-copy", "mutate-original", "switch-to-copy"]))})
         else:
@@ -367,19 +368,53 @@ def run_history(cls, ops, st):
             keys = op["keys"]
             log.append(f"reset({keys}, single={op['single']}, kw={op['kw']})")
             try:
+                form = op.get("form", "kw" if op["kw"] else "pos")
                 if op["single"]:
                     e.reset_parameter(keys[0])
                     m.reset(keys)
                 elif not keys:
                     e.reset_parameters()
                     m.reset(list(m.v.keys()))
-                elif op["kw"]:
+                elif form.startswith("unknown"):
+                    # an unknown key addressed positionally, as a keyword, or as a keyword next to a valid positional key
+                    # must be refused, and (one refused call) the valid keys are either all reset or all untouched
+                    before = m.clone()
+                    try:
+                        if form == "unknown-pos":
+                            e.reset_parameters(*keys, "nope_key")
+                        elif form == "unknown-kw":
+                            e.reset_parameters(**{kk: None for kk in keys}, nope_key=True)
+                        else:
+                            e.reset_parameters(*keys[:1], **{kk: None for kk in keys[1:]}, nope_key=True)
+                        # the statement does not say that an unknown key must be refused: if the call is accepted, the
+                        # valid keys it addressed must have been reset (counted, not judged)
+                        st["reset_unknown_key_accepted"] = st.get("reset_unknown_key_accepted", 0) + 1
+                        m.reset(keys)
+                    except Exception as ex:
+                        st["refused_updates"] = st.get("refused_updates", 0) + 1
+                        if not isinstance(ex, (KeyError, ValueError, TypeError)):
+                            bad(step, f"C14/unexpected-exception:{type(ex).__name__}", monitors.tb_tail(ex))
+                        after = m.clone()
+                        after.reset(keys)
+                        for kk in keys:
+                            got = (e.get_value(kk), e.get_lower_limit(kk), e.get_upper_limit(kk), e.is_fixed(kk))
+                            n_ = (after.v[kk], after.lo[kk], after.hi[kk], after.fx[kk])
+                            if all(_same(a, b) for a, b in zip(got, n_)):
+                                m.v[kk], m.lo[kk], m.hi[kk], m.fx[kk] = n_
+                    outcomes.append("refused:reset-unknown-key")
+                    st["resets_unknown_key"] = st.get("resets_unknown_key", 0) + 1
+                elif form == "kw":
                     e.reset_parameters(**{kk: None for kk in keys})
                     m.reset(keys)
+                elif form == "mixed" and len(keys) >= 2:
+                    e.reset_parameters(*keys[:1], **{kk: True for kk in keys[1:]})
+                    m.reset(keys)
+                    st["resets_mixed_form"] = st.get("resets_mixed_form", 0) + 1
                 else:
                     e.reset_parameters(*keys)
                     m.reset(keys)
-                outcomes.append("reset")
+                if not outcomes or not outcomes[-1].startswith("refused:reset"):
+                    outcomes.append("reset")
                 st["resets"] = st.get("resets", 0) + 1
             except Exception as ex:
                 bad(step, f"C14/reset-raised:{type(ex).__name__}", f"{type(ex).__name__}: {ex}")
@@ -531,7 +566,7 @@ def finalize(agg):
     inc = []
     if agg["monitors"].get("Element.invariant", 0) == 0:
         inc.append("Element invariant contract never evaluated")
-    for need in ("refused_updates", "clamped", "copies", "resets", "parsed"):
+    for need in ("refused_updates", "clamped", "copies", "resets", "parsed", "resets_mixed_form", "resets_unknown_key"):
         if agg["stats"].get(need, 0) == 0:
             inc.append(f"'{need}' never observed")
     return {"viol": [], "inconclusive": inc}
